@@ -15,6 +15,7 @@
 -/
 import RdfModel.Driver.Wire
 import RdfModel.Spec.JsonLdFragment
+import RdfModel.Spec.JsonLdWriter
 namespace RdfModel.Driver.JsonLd
 open RdfModel RdfModel.Wire RdfModel.Desc RdfModel.JL
 
@@ -149,8 +150,32 @@ def parseMode (s : String) : Option Bool :=
 def parseBase (s : String) : Option (Option L) :=
   if s = "-" then some none else (runesTok s).map some
 
+/-- choices token `<nest><lists><anonTop><natives><useType><compactGroups>:<shape>:<seed>` -/
+def parseChoices (mode11 : Bool) (base : Option L) (ctx : Option Json) (s : String) : Option Choices :=
+  match s.splitOn ":" with
+  | [flags, shape, seed] =>
+    match flags.toList.map (· == '1'), shape.toNat?, seed.toNat? with
+    | [nest, lists, anonTop, natives, useType, compactGroups], some shape, some seed =>
+      some { mode11, base, context := ctx, nest, lists, anonTop, natives, useType, compactGroups, shape, seed }
+    | _, _, _ => none
+  | _ => none
+
 def handle (op : String) (args : List String) : Option String :=
   match op, args with
+  | "write", [m, b, chs, cj, qs] => do
+    let m ← parseMode m
+    let b ← parseBase b
+    let cj ← (if cj = "-" then some none else (parseJson cj).map some)
+    let ch ← parseChoices m b cj chs
+    let d ← parseQuads qs
+    let doc := write (fun (l : L) => l) d ch
+    let path := match tryWrite (fun (l : L) => l) d ch with
+      | some _ => "validated"
+      | none => "fallback"
+    let r := match toRdf m b doc with
+      | some out => showQs out
+      | none => "outside"
+    pure ("ok:" ++ showJson doc ++ " " ++ path ++ " " ++ r)
   | "tordf", [m, b, j] => do
     let m ← parseMode m
     let b ← parseBase b
